@@ -379,6 +379,7 @@ def s6(ctx, R):
     from sa.util import module_resolver
     _mod_resolve = module_resolver(ctx.program, R.cmod)
     n = 0
+    undecided = 0
     # a text: block is written the same way at every nesting depth
     scenarios = [sc + (0,) for sc in scenarios] + [(sc[0] + " (in a nested block)",) + sc[1:] + (4,) for sc in scenarios
                                                     if sc[4][0].startswith("text: block")]
@@ -395,6 +396,9 @@ def s6(ctx, R):
             raise AnalysisError("S6", "path explosion in tosieve for %s" % what)
         key = "%s/%s" % (what, label)
         problems = []
+        if getattr(ctx, "_dbg_s6", False):
+            print("S6-UNK", what, label, sorted(set(it.unknowns)), len(paths))
+        guessed = bool(set(it.unknowns) - {"self.get_type"})  # a call the interpreter could not follow: some paths are guesses
         for p in paths:
             if p.kind == "raise":
                 problems.append("raises %s" % p.value)
@@ -435,12 +439,17 @@ def s6(ctx, R):
                 problems.append("writes %r after the text: block instead of a newline" % (nxt,))
             if extra is not None and not text[:i].endswith(":tag "):
                 problems.append("the tag and a space do not precede its parameter (%r)" % (text[:i],))
+        if problems and guessed and len(problems) < len(paths):
+            # not every path shows the problem and some paths rest on a guess: nothing is known about this scenario
+            ctx.notice("S6", "%s holding a %s: not followed (%s)" % (what, label, sorted(set(it.unknowns) - {"self.get_type"})[:3]))
+            undecided += 1
+            continue
         if problems:
             ctx.violation("S6", f, "slot-shape:%s" % key, "tosieve, %s holding a %s: %s" % (what, label, problems[0]), node=f.node,
                           witness="a command using this slot form serialises to text that does not re-parse to the same tree")
         else:
             ctx.holds("S6", "%s holding a %s (%d paths)" % (what, label, len(paths)))
-    ctx.need("S6", "slot form x value shape scenarios", n, 12)
+    ctx.need("S6", "slot form x value shape scenarios", n - undecided, 12)
     # items of a string list: the recorder stores complete quoted-string tokens (P14); each must be written back unchanged
     comps = [c for c in walk_no_nested(f.node) if isinstance(c, (ast.ListComp, ast.GeneratorExp)) and len(c.generators) == 1
              and isinstance(c.generators[0].iter, ast.Name) and isinstance(c.generators[0].target, ast.Name)]
